@@ -140,6 +140,7 @@ fn main() {
     let mut alloc_units = 0u64;
     let mut ctor_tests = 0u64;
     let mut template_batches = 0u64;
+    let mut template_fields = 0u64;
     let mut machinery: Vec<String> = vec![];
     let mut known: BTreeMap<String, u64> = BTreeMap::new();
     let mut samples: Vec<String> = vec![];
@@ -327,7 +328,7 @@ fn main() {
             c_src.push_str(&format!("unsigned long long {0}_size(void) {{ return sizeof({1} {0}); }}\n", g.name, kw));
             rs_ext.push_str(&format!("fn {}_size() -> u64;\n", g.name));
             rs_body.push_str(&format!("println!(\"SIZE {0} {{}} {{}}\", std::mem::size_of::<{0}>(), unsafe {{ {0}_size() }});\n", g.name));
-            let impl_pat = if g.is_template { format!("impl < T > {} < T > {{", g.dump_name) } else { format!("impl {} {{", g.name) };
+            let impl_pat = if g.is_template { format!("impl < T , > {} < T , > {{", g.dump_name) } else { format!("impl {} {{", g.name) };
             let impl_text: &str = bindings.find(&impl_pat).map(|i| &bindings[i..]).unwrap_or("");
             let impl_text = impl_text.find("\nimpl ").map(|j| &impl_text[..j]).unwrap_or(impl_text);
             // with --formatter none an impl block ends where the next top-level item starts
@@ -336,6 +337,7 @@ fn main() {
             for f in &g.fields {
                 if !impl_text.contains(&format!("pub fn set_{} ", f.name)) && !impl_text.contains(&format!("pub fn set_{}(", f.name)) { continue; }
                 fields_total += 1;
+                if g.is_template { template_fields += 1; }
                 *width_hist.entry(format!("{}", (f.width + 7) / 8 * 8)).or_default() += 1;
                 let sn = &g.name;
                 let fnm = &f.name;
@@ -451,8 +453,8 @@ fn main() {
     }
     let map_json = |m: &BTreeMap<String, u64>| format!("{{{}}}", m.iter().map(|(k, v)| format!("{}:{}", json_str(k), v)).collect::<Vec<_>>().join(","));
     let report = format!(
-        "{{\"evaluations\":{},\"structs\":{},\"bitfields\":{},\"distinct_nontrivial\":{},\"known_region_hits\":{},\"storage_bits_histogram\":{},\"samples\":[{}],\"template_batches\":{},\"constructor_tests\":{},\"allocation_units_compared\":{},\"correspondence_failures\":[{}],\"oracle_failures\":[{}],\"machinery\":[{}]}}",
-        evaluations, structs, fields_total, distinct.len(), map_json(&known), map_json(&width_hist), samples.join(","), template_batches, ctor_tests, alloc_units, corr.iter().take(20).cloned().collect::<Vec<_>>().join(","),
+        "{{\"evaluations\":{},\"structs\":{},\"bitfields\":{},\"distinct_nontrivial\":{},\"known_region_hits\":{},\"storage_bits_histogram\":{},\"samples\":[{}],\"template_fields_tested\":{},\"template_batches\":{},\"constructor_tests\":{},\"allocation_units_compared\":{},\"correspondence_failures\":[{}],\"oracle_failures\":[{}],\"machinery\":[{}]}}",
+        evaluations, structs, fields_total, distinct.len(), map_json(&known), map_json(&width_hist), samples.join(","), template_fields, template_batches, ctor_tests, alloc_units, corr.iter().take(20).cloned().collect::<Vec<_>>().join(","),
         oracle.iter().take(20).cloned().collect::<Vec<_>>().join(","), machinery.iter().take(10).map(|m| json_str(m)).collect::<Vec<_>>().join(","));
     write(&args.out.join("report.json"), &report);
     println!("ops={evaluations} structs={structs} fields={fields_total} oracle={} known={:?} machinery={}", oracle.len(), known, machinery.len());
